@@ -33,7 +33,7 @@ EXPLANATION = (
     'reads the command line before deleting, restores in a finally inside the temporary directory scope; R4b in read_cmd_line_file the mapping assigned to options.cmd_line_options is merged from the recorded table and the current options with the current ones last (highest priority); R5a-c the option file '
     'handed to OptionInterpreter.process for a subproject is its recorded file / depends on per-subproject data, and the same '
     'subproject key is used for the interpreter, the store update and the recorded hash. '
-    'R2d the object installed for a redeclared option gets the parent link (parent/yielding) that add_project_option gives a new one; R5d every normal path of _load_option_file calls update_project_options for self.subproject, with no declarations when there is no option file. Does NOT decide agreement with a reference model over command histories, nor what set_user_option/set_value accept.')
+    'R2d the object installed for a redeclared option gets the parent link (parent/yielding) that add_project_option gives a new one; R5d every normal path of _load_option_file calls update_project_options for self.subproject, with no declarations when there is no option file. R6 in Environment every option writer fed from self.options (the initial sources) is unreachable when first_invocation is false. Does NOT decide agreement with a reference model over command histories, nor what set_user_option/set_value accept.')
 ASSUMPTIONS = [
     'OptionStore.set_option(key, v) validates and stores v on the object currently in self.options[key]',
     'UserOption.set_value raises MesonException (and keeps the previous value) for an invalid value',
@@ -305,6 +305,118 @@ def _fold_named_constants(mod: Module) -> None:
         Fold().visit(f)
 
 
+def _is_table_leaf(e: ast.AST) -> bool:
+    if isinstance(e, (ast.Tuple, ast.List)):
+        return all(_is_table_leaf(x) for x in e.elts)
+    return isinstance(e, ast.Constant) or attr_chain(e) is not None
+
+
+def _unroll_constant_tables(mod: Module) -> None:
+    """Table-driven code back to the chain it abbreviates:
+      * `for a, b in TABLE: body` where TABLE is a module constant tuple/list display (<= 8 rows, never rebound, body without
+        break/continue)                                      ->  body[a,b := row 1]; body[a,b := row 2]; ...
+      * `any(E for x in (c1, c2))` / `all(...)`              ->  `E[x:=c1] or E[x:=c2]` / `... and ...`
+      * `getattr(o, 'name')` / `setattr(o, 'name', v)`       ->  `o.name` / `o.name = v`"""
+    stores: T.Dict[str, int] = {}
+    for n in ast.walk(mod.tree):
+        if isinstance(n, ast.Name) and isinstance(n.ctx, (ast.Store, ast.Del)):
+            stores[n.id] = stores.get(n.id, 0) + 1
+        elif isinstance(n, ast.arg):
+            stores[n.arg] = stores.get(n.arg, 0) + 1
+    tables_: T.Dict[str, ast.AST] = {}
+    for st in mod.tree.body:
+        tv = None
+        if isinstance(st, ast.Assign) and len(st.targets) == 1 and isinstance(st.targets[0], ast.Name):
+            tv = (st.targets[0].id, st.value)
+        elif isinstance(st, ast.AnnAssign) and isinstance(st.target, ast.Name) and st.value is not None:
+            tv = (st.target.id, st.value)
+        if tv and isinstance(tv[1], (ast.Tuple, ast.List)) and 0 < len(tv[1].elts) <= 8 and _is_table_leaf(tv[1]) and stores.get(tv[0]) == 1:
+            tables_[tv[0]] = tv[1]
+
+    def rows_of(e: ast.AST) -> T.Optional[T.List[ast.AST]]:
+        if isinstance(e, ast.Name) and e.id in tables_:
+            e = tables_[e.id]
+        if isinstance(e, (ast.Tuple, ast.List)) and 0 < len(e.elts) <= 8 and _is_table_leaf(e):
+            return list(e.elts)
+        return None
+
+    def bind(target: ast.AST, row: ast.AST) -> T.Optional[T.Dict[str, ast.AST]]:
+        if isinstance(target, ast.Name):
+            return {target.id: row}
+        if isinstance(target, (ast.Tuple, ast.List)) and isinstance(row, (ast.Tuple, ast.List)) and len(target.elts) == len(row.elts):
+            out: T.Dict[str, ast.AST] = {}
+            for t, r in zip(target.elts, row.elts):
+                b = bind(t, r)
+                if b is None:
+                    return None
+                out.update(b)
+            return out
+        return None
+
+    class Expr(ast.NodeTransformer):
+        def visit_Call(self, node: ast.Call) -> ast.AST:
+            self.generic_visit(node)
+            if isinstance(node.func, ast.Name) and node.func.id in ('any', 'all') and len(node.args) == 1 and not node.keywords \
+                    and isinstance(node.args[0], (ast.GeneratorExp, ast.ListComp)) and len(node.args[0].generators) == 1:
+                g = node.args[0].generators[0]
+                rows = rows_of(g.iter)
+                if rows is not None and not g.ifs and not g.is_async:
+                    vals = []
+                    for r in rows:
+                        b = bind(g.target, r)
+                        if b is None:
+                            return node
+                        vals.append(Expr().visit(_subst(node.args[0].elt, b)))
+                    out = vals[0] if len(vals) == 1 else ast.BoolOp(op=ast.Or() if node.func.id == 'any' else ast.And(), values=vals)
+                    return ast.fix_missing_locations(ast.copy_location(out, node))
+            if isinstance(node.func, ast.Name) and node.func.id == 'getattr' and len(node.args) == 2 and not node.keywords \
+                    and isinstance(node.args[1], ast.Constant) and isinstance(node.args[1].value, str) and node.args[1].value.isidentifier():
+                return ast.copy_location(ast.Attribute(value=node.args[0], attr=node.args[1].value, ctx=ast.Load()), node)
+            return node
+
+    def unroll(block: T.List[ast.stmt]) -> None:
+        i = 0
+        while i < len(block):
+            st = block[i]
+            for field in ('body', 'orelse', 'finalbody'):
+                sub = getattr(st, field, None)
+                if isinstance(sub, list) and sub and isinstance(sub[0], ast.stmt) and not isinstance(st, (ast.FunctionDef, ast.AsyncFunctionDef, ast.ClassDef)):
+                    unroll(sub)
+            for h in getattr(st, 'handlers', []):
+                unroll(h.body)
+            if isinstance(st, ast.For) and not st.orelse:
+                rows = rows_of(st.iter)
+                jumps = any(isinstance(n, (ast.Break, ast.Continue)) for b in st.body for n in walk_no_nested(b))
+                stored_in_body = {n.id for b in st.body for n in ast.walk(b) if isinstance(n, ast.Name) and isinstance(n.ctx, ast.Store)}
+                tnames = {n.id for n in ast.walk(st.target) if isinstance(n, ast.Name)}
+                if rows is not None and not jumps and not (stored_in_body & tnames):
+                    new: T.List[ast.stmt] = []
+                    ok = True
+                    for r in rows:
+                        b = bind(st.target, r)
+                        if b is None:
+                            ok = False
+                            break
+                        new.extend(_Sub(b).visit(copy.deepcopy(x)) for x in st.body)
+                    if ok:
+                        for x in new:
+                            ast.fix_missing_locations(x)
+                        block[i:i + 1] = new
+                        i += len(new) - 1
+            i += 1
+
+    for f in mod.funcs().values():
+        unroll(f.body)
+        Expr().visit(f)
+        for blk in _blocks(f.body):
+            for j, st in enumerate(blk):
+                if isinstance(st, ast.Expr) and isinstance(st.value, ast.Call) and isinstance(st.value.func, ast.Name) and st.value.func.id == 'setattr' \
+                        and len(st.value.args) == 3 and isinstance(st.value.args[1], ast.Constant) and isinstance(st.value.args[1].value, str) \
+                        and st.value.args[1].value.isidentifier():
+                    blk[j] = ast.fix_missing_locations(ast.copy_location(ast.Assign(
+                        targets=[ast.Attribute(value=st.value.args[0], attr=st.value.args[1].value, ctx=ast.Store())], value=st.value.args[2]), st))
+
+
 def _select_callee(block: T.List[ast.stmt]) -> None:
     """`f = a if c else b; ...; f(x)`  and  `(a if c else b)(x)`  ->  `if c: a(x) else: b(x)` (callable selected first, called later)."""
     i = 0
@@ -438,6 +550,7 @@ def _m(ctx: RuleCtx, rel: str) -> Module:
         mod._c08_normal = True  # type: ignore[attr-defined]
         _Normalise(ctx.repo, mod).visit(mod.tree)
         _fold_named_constants(mod)
+        _unroll_constant_tables(mod)
         for f in mod.funcs().values():
             _select_callee(f.body)
             _statement_forms(f)
@@ -548,6 +661,8 @@ def _helper_of(mod: Module, cls: T.Optional[str], call: ast.Call) -> T.Optional[
         m = mod.methods(cls).get(f.attr)       # Class.static_helper(...)
         if m is not None and 'staticmethod' in [attr_chain(d) for d in m.decorator_list]:
             return T.cast(ast.FunctionDef, m)
+    if isinstance(f, ast.Attribute) and isinstance(f.value, ast.Name) and f.value.id in _LOCAL_TYPES:
+        return T.cast(ast.FunctionDef, mod.methods(_LOCAL_TYPES[f.value.id]).get(f.attr))
     if isinstance(f, ast.Name) and f.id in _CLOSURES:
         return _CLOSURES[f.id]
     if isinstance(f, ast.Name) and mod.has_func(f.id):
@@ -556,6 +671,34 @@ def _helper_of(mod: Module, cls: T.Optional[str], call: ast.Call) -> T.Optional[
 
 
 _CLOSURES: T.Dict[str, ast.FunctionDef] = {}
+_LOCAL_TYPES: T.Dict[str, str] = {}      # local name -> class of the same module it is an instance of (all its non-None bindings are `Cls(...)`)
+
+
+def _local_types(mod: Module, fn: ast.AST) -> T.Dict[str, str]:
+    binds: T.Dict[str, T.List[ast.AST]] = {}
+    for st in ast.walk(fn):
+        if isinstance(st, ast.Assign) and len(st.targets) == 1 and isinstance(st.targets[0], ast.Name):
+            binds.setdefault(st.targets[0].id, []).append(st.value)
+        elif isinstance(st, ast.AnnAssign) and isinstance(st.target, ast.Name) and st.value is not None:
+            binds.setdefault(st.target.id, []).append(st.value)
+        elif isinstance(st, (ast.For, ast.With, ast.AugAssign, ast.NamedExpr, ast.comprehension)):
+            for n in ast.walk(getattr(st, 'target', None) or ast.Pass()):
+                if isinstance(n, ast.Name):
+                    binds.setdefault(n.id, []).append(ast.Pass())
+    out: T.Dict[str, str] = {}
+    for name, vals in binds.items():
+        real = [v for v in vals if not (isinstance(v, ast.Constant) and v.value is None)]
+        if real and all(isinstance(v, ast.Call) and isinstance(v.func, ast.Name) and mod.has_cls(v.func.id) for v in real) \
+                and len({v.func.id for v in real}) == 1:  # type: ignore[attr-defined]
+            out[name] = real[0].func.id  # type: ignore[attr-defined]
+    # parameters annotated with a class of the module
+    for a in fn.args.posonlyargs + fn.args.args:  # type: ignore[attr-defined]
+        ann = attr_chain(a.annotation) if a.annotation is not None else None
+        if isinstance(a.annotation, ast.Constant) and isinstance(a.annotation.value, str):
+            ann = a.annotation.value
+        if ann and mod.has_cls(ann) and a.arg not in binds and a.arg not in ('self', 'cls'):
+            out[a.arg] = ann
+    return out
 
 
 def _has_return(st: ast.AST) -> bool:
@@ -600,7 +743,10 @@ def _instantiate(callee: ast.FunctionDef, call: ast.Call, tag: str,
     if isinstance(callee, ast.AsyncFunctionDef) or any(d not in ('staticmethod', 'classmethod') for d in decos):
         return None
     params = [x.arg for x in a.posonlyargs + a.args]
+    recv_env: T.Dict[str, ast.AST] = {}
     if params and params[0] in ('self', 'cls') and isinstance(call.func, ast.Attribute) and 'staticmethod' not in decos:
+        if isinstance(call.func.value, ast.Name) and call.func.value.id not in ('self', 'cls') and call.func.value.id in _LOCAL_TYPES:
+            recv_env[params[0]] = call.func.value        # method of another object of this module: `self` is that object
         params = params[1:]
     body = list(callee.body)
     if body and isinstance(body[0], ast.Expr) and isinstance(body[0].value, ast.Constant) and isinstance(body[0].value.value, str):
@@ -626,7 +772,7 @@ def _instantiate(callee: ast.FunctionDef, call: ast.Call, tag: str,
             given[p_] = defaults[p_]
     stored = {n.id for st in body for n in ast.walk(st) if isinstance(n, ast.Name) and isinstance(n.ctx, (ast.Store, ast.Del))}
     pre: T.List[ast.stmt] = []
-    env: T.Dict[str, ast.AST] = {}
+    env: T.Dict[str, ast.AST] = dict(recv_env)
     ren: T.Dict[str, str] = {x: f'{x}__{tag}' for x in stored}
     for p_, x in given.items():
         simple = attr_chain(x) is not None or isinstance(x, ast.Constant)
@@ -698,6 +844,26 @@ def _inline_helpers(mod: Module, cls: T.Optional[str], stmts: T.List[ast.stmt], 
             if body is not None:
                 out.extend(_inline_helpers(mod, cls, body, keep | {callee.name}, depth - 1, cnt))
                 continue
+        if isinstance(st, ast.If) and depth > 0:
+            # `if h(..):` / `if not h(..):` - the helper's body runs first, each of its results selects the branch
+            t = st.test.operand if isinstance(st.test, ast.UnaryOp) and isinstance(st.test.op, ast.Not) else st.test
+            callee = _helper_of(mod, cls, t) if isinstance(t, ast.Call) and call_method(t) not in keep and \
+                not any(isinstance(c, ast.Call) for a_ in list(t.args) + [k_.value for k_ in t.keywords] for c in ast.walk(a_)) else None
+            if callee is not None:
+                cnt[0] += 1
+                neg = t is not st.test
+                ib = _inline_helpers(mod, cls, st.body, keep, depth, cnt)
+                io = _inline_helpers(mod, cls, st.orelse, keep, depth, cnt)
+
+                def kif(v: T.Optional[ast.AST], st: ast.If = st, neg: bool = neg, ib: T.List[ast.stmt] = ib, io: T.List[ast.stmt] = io) -> T.List[ast.stmt]:
+                    val: ast.AST = copy.deepcopy(v) if v is not None else ast.Constant(value=None)
+                    if neg:
+                        val = ast.UnaryOp(op=ast.Not(), operand=val)
+                    return [ast.fix_missing_locations(ast.copy_location(ast.If(test=val, body=copy.deepcopy(ib), orelse=copy.deepcopy(io)), st))]
+                body = _instantiate(callee, t, f'h{cnt[0]}', kif)
+                if body is not None:
+                    out.extend(_inline_helpers(mod, cls, body, keep | {callee.name}, depth - 1, cnt))
+                    continue
         if isinstance(st, (ast.If, ast.For, ast.AsyncFor, ast.While, ast.With, ast.AsyncWith, ast.Try)):
             st = copy.copy(st)
             for field in ('body', 'orelse', 'finalbody'):
@@ -722,10 +888,13 @@ def _inlined(mod: Module, qn: str, keep: T.Iterable[str] = ()) -> ast.FunctionDe
     fn2 = copy.copy(fn)
     _CLOSURES.clear()
     _CLOSURES.update({st.name: st for st in ast.walk(fn) if isinstance(st, ast.FunctionDef) and st is not fn})
+    _LOCAL_TYPES.clear()
+    _LOCAL_TYPES.update(_local_types(mod, fn))
     try:
         fn2.body = _inline_helpers(mod, cls, fn.body, set(keep) | {fn.name})
     finally:
         _CLOSURES.clear()
+        _LOCAL_TYPES.clear()
     return T.cast(ast.FunctionDef, fn2)
 
 
@@ -1290,9 +1459,14 @@ def _r2_walk(qn: str, body: T.List[ast.stmt], p: paths.Path, pm: T.Dict[ast.AST,
                     continue
                 if isinstance(t, ast.Attribute) and norm(sym(t.value)) == 'NEW' and t.attr in WIRED_ATTRS:
                     v = norm(sym(st.value))
-                    if v != f'OLD.{t.attr}':
+                    if v == f'OLD.{t.attr}':
+                        out.acts.append((f'wire NEW: {t.attr}', st))
+                        if t.attr == 'yielding':
+                            out.acts.append(('wire NEW: keep-detached', st))
+                    elif t.attr == 'yielding' and v in ('NEW.yielding and OLD.yielding', 'OLD.yielding and NEW.yielding'):
+                        out.acts.append(('wire NEW: keep-detached', st))
+                    else:
                         raise Undecided(f'{qn}: `{short(st)}`: wiring value not understood')
-                    out.acts.append((f'wire NEW: {t.attr}', st))
                     continue
                 if isinstance(t, ast.Subscript) and norm(_subst(t, env)) == 'self.options[KEY]':
                     v = norm(sym(st.value))
@@ -1324,6 +1498,11 @@ def _r2_walk(qn: str, body: T.List[ast.stmt], p: paths.Path, pm: T.Dict[ast.AST,
                     out.stored = 'REMOVED'
                     out.acts.append(('remove', st))
                     continue
+                if cn == 'self.__repoint__':
+                    if args == ['OLD', 'NEW']:
+                        out.acts.append(('wire NEW: repoint-children', st))
+                        continue
+                    raise Undecided(f'{qn}: re-pointing loop not understood: {args}')
                 if cn.startswith('self.') and cn[5:] in _R2_WIRING and 'NEW' in args:
                     out.acts.append(('wire NEW: ' + ','.join(sorted(_R2_WIRING[cn[5:]])), st))
                     continue
@@ -1336,6 +1515,32 @@ def _r2_walk(qn: str, body: T.List[ast.stmt], p: paths.Path, pm: T.Dict[ast.AST,
     out.outcome = p.outcome
     out.text = p.describe()
     return out
+
+
+def _repoint_loops(block: T.List[ast.stmt]) -> None:
+    """`for o in self.options.values(): if o.parent is E: o.parent = F`  ->  the single effect `self.__repoint__(E, F)`."""
+    for blk in _blocks(block):
+        for i, st in enumerate(blk):
+            if not (isinstance(st, ast.For) and not st.orelse and len(st.body) == 1 and isinstance(st.body[0], ast.If)):
+                continue
+            it = st.iter
+            x = None
+            if isinstance(it, ast.Call) and norm(it.func) == 'self.options.values' and isinstance(st.target, ast.Name):
+                x = st.target.id
+            elif isinstance(it, ast.Call) and norm(it.func) == 'self.options.items' and isinstance(st.target, ast.Tuple) and len(st.target.elts) == 2 \
+                    and isinstance(st.target.elts[1], ast.Name):
+                x = st.target.elts[1].id
+            iff = st.body[0]
+            if x is None or iff.orelse or len(iff.body) != 1:
+                continue
+            a, v = tables.canon(iff.test, True)
+            asg = iff.body[0]
+            if a.kind == 'is' and v and f'{x}.parent' in a.args and isinstance(asg, ast.Assign) and len(asg.targets) == 1 and norm(asg.targets[0]) == f'{x}.parent':
+                other = [t for t in a.args if t != f'{x}.parent']
+                if len(other) == 1:
+                    blk[i] = ast.fix_missing_locations(ast.copy_location(ast.Expr(value=ast.Call(
+                        func=ast.Attribute(value=ast.Name(id='self', ctx=ast.Load()), attr='__repoint__', ctx=ast.Load()),
+                        args=[ast.parse(other[0], mode='eval').body, asg.value], keywords=[])), st))
 
 
 def _lower_trys(qn: str, stmts: T.List[ast.stmt], handlers: T.Dict[int, ast.ExceptHandler]) -> T.List[ast.stmt]:
@@ -1465,7 +1670,7 @@ def _r2a_impl(ctx: RuleCtx, wiring_mode: bool) -> None:
     qn = 'OptionStore.update_project_options'
     _R2_WIRING.clear()
     _R2_WIRING.update(_wiring_methods(mod, 'OptionStore'))
-    fn = _inlined(mod, qn, ('add_project_option', 'set_option', 'remove', 'get_value_object', 'set_value', 'is_project_option') + tuple(_R2_WIRING))
+    fn = _inlined(mod, qn, ('add_project_option', 'set_option', 'remove', 'get_value_object', 'set_value', 'is_project_option', 'choices_are_different') + tuple(_R2_WIRING))
     params = _pos_params(fn)
     if len(params) != 2:
         raise Undecided(f'{qn}: expected (project_options, subproject)')
@@ -1474,6 +1679,7 @@ def _r2a_impl(ctx: RuleCtx, wiring_mode: bool) -> None:
         raise Undecided(f'{qn}: expected one loop over {params[0]}.items()')
     k, v, _ = _items_loop(loops[0], params[0])  # type: ignore[misc]
     body = _renamed(loops[0].body, {k: 'KEY', v: 'NEW', params[0]: 'ARG1', params[1]: 'ARG2'}, fn)
+    _repoint_loops(body)
     pm = _parent_map(ast.Module(body=body, type_ignores=[]))
     handlers: T.Dict[int, ast.ExceptHandler] = {}
     lowered = _lower_trys(qn, body, handlers)
@@ -1517,9 +1723,19 @@ def _r2a_impl(ctx: RuleCtx, wiring_mode: bool) -> None:
                     continue     # reported by C08.R2a
                 done = {a.strip() for w_, _ in rp.acts if w_.startswith('wire NEW: ') for a in w_[len('wire NEW: '):].split(',')}
                 store = next((n for w_, n in rp.acts if w_ == 'store NEW'), None)
-                if need <= done:
+                if need <= done and 'keep-detached' not in done:
+                    bad.setdefault('store NEW: yielding not carried over from OLD',
+                                   ('links the installed declaration to its parent anew but does not carry over the yielding state of the replaced object '
+                                    '(`NEW.yielding` is never derived from `OLD.yielding`): a subproject option the user has given its own value '
+                                    '(-Dsub:opt=v switches yielding off) follows the parent again after the option file changed, the user value is lost',
+                                    store or rp.acts[0][1], want, w))
+                if need <= done and 'repoint-children' not in done:
+                    bad.setdefault('store NEW: options yielding to OLD not re-pointed',
+                                   ('replaces the stored object but leaves every option whose `.parent` is the replaced object pointing at it: subproject options '
+                                    'yielding to a redeclared top-level option keep reading the old object', store or rp.acts[0][1], want, w))
+                if need <= done and {'keep-detached', 'repoint-children'} <= done:
                     okp.setdefault(rp.text, 'replace+wired')
-                else:
+                elif not need <= done:
                     bad.setdefault('store NEW without ' + '/'.join(sorted(need - done)),
                                    (f'installs the new declaration object without the parent link that add_project_option gives a new option '
                                     f'(`.{"`, `.".join(sorted(need - done))}` of the installed object are never set from the store): a subproject option declared '
@@ -1562,7 +1778,7 @@ def _resolve_local(fn: ast.AST, e: ast.AST) -> ast.AST:
 def r2b(ctx: RuleCtx) -> None:
     mod = _m(ctx, OPTIONS)
     qn = 'OptionStore.update_project_options'
-    fn = _inlined(mod, qn, ('add_project_option', 'set_option', 'remove', 'get_value_object', 'set_value', 'is_project_option'))
+    fn = _inlined(mod, qn, ('add_project_option', 'set_option', 'remove', 'get_value_object', 'set_value', 'is_project_option', 'choices_are_different'))
     params = _pos_params(fn)
     def removes(l: ast.For) -> bool:
         return any((isinstance(c, ast.Call) and call_name(c) == 'self.remove') or
@@ -2145,10 +2361,11 @@ def r3b(ctx: RuleCtx) -> None:
         raise AnalysisError('C08.R3b: built-in positive example (swallowing handler) was not flagged')
     mod = _m(ctx, MCONF)
     qn = 'run_impl'
-    fn = mod.func(qn)
+    fn = _inlined(mod, qn, ('save', 'print_conf'))
     res = _r3b_analyse(fn, qn)
     for what, cnt in zip(('set_from_configure_command', 'cmd_line.txt update', 'Conf.save'), res.counts):
-        ctx.floor(f'{qn}: {what} call sites', cnt, 1)
+        if cnt == 0:
+            raise Undecided(f'{qn}: no {what} call found in run_impl or the helpers it calls (written differently?)')
     seen: T.Set[str] = set()
     for c, m, n in res.bad:
         if (c, m) not in seen:
@@ -2186,6 +2403,37 @@ class _R4Result:
         self.ok: T.List[str] = []
         self.bad: T.List[T.Tuple[str, str, ast.AST]] = []
         self.counts: T.Dict[str, int] = {}
+
+
+_RECORDS: T.Dict[str, T.List[str]] = {}
+
+
+def _record_classes(mod: Module) -> T.Dict[str, T.List[str]]:
+    """NamedTuple / dataclass record classes of the module: name -> field names in declaration order."""
+    out: T.Dict[str, T.List[str]] = {}
+    for name, c in mod.classes().items():
+        if '.' in name:
+            continue
+        is_rec = any((attr_chain(b) or '').split('.')[-1] == 'NamedTuple' for b in c.bases) or \
+            any((attr_chain(d.func if isinstance(d, ast.Call) else d) or '').split('.')[-1] == 'dataclass' for d in c.decorator_list)
+        flds = [st.target.id for st in c.body if isinstance(st, ast.AnnAssign) and isinstance(st.target, ast.Name)]
+        if is_rec and flds:
+            out[name] = flds
+    return out
+
+
+def _resolve_in_loop(loop: ast.For, e: ast.AST) -> ast.AST:
+    """Substitute locals bound once in the loop body to call-free expressions (`backup, original = saved` / `dst = saved.original`)."""
+    env: T.Dict[str, ast.AST] = {}
+    for st in loop.body:
+        if isinstance(st, ast.Assign) and len(st.targets) == 1 and _transparent(st.value):
+            t = st.targets[0]
+            if isinstance(t, ast.Name):
+                env[t.id] = _subst(st.value, env)
+            elif isinstance(t, ast.Tuple) and all(isinstance(x, ast.Name) for x in t.elts):
+                for i, x in enumerate(t.elts):
+                    env[x.id] = ast.Subscript(value=_subst(st.value, env), slice=ast.Constant(value=i), ctx=ast.Load())  # type: ignore[attr-defined]
+    return _subst(e, env)
 
 
 def _unfold_list_comps(fn: ast.AST) -> None:
@@ -2248,8 +2496,8 @@ def _r4_analyse(fn: ast.AST, qn: str) -> _R4Result:
     has_cmd = any(isinstance(x, ast.Call) and call_method(x) == 'get_cmd_line_file' for x in ast.walk(src_iter))
     has_ini = any(isinstance(x, ast.Call) and call_method(x) == 'glob' and any(isinstance(k, ast.Constant) and k.value == '*.ini' for k in ast.walk(x))
                   for x in ast.walk(src_iter))
-    opaque = [c for c in ast.walk(src_iter) if isinstance(c, ast.Call) and call_method(c) not in ('get_cmd_line_file', 'glob', 'join', 'list', 'sorted', 'str')]
-    opaque += [n for n in ast.walk(src_iter) if isinstance(n, ast.Name) and n.id not in ('self', 'cmdline', 'glob', 'os', 'environment', 'list', 'sorted', 'str')
+    opaque = [c for c in ast.walk(src_iter) if isinstance(c, ast.Call) and call_method(c) not in ('get_cmd_line_file', 'glob', 'join', 'list', 'sorted', 'str', 'chain')]
+    opaque += [n for n in ast.walk(src_iter) if isinstance(n, ast.Name) and n.id not in ('self', 'cmdline', 'glob', 'os', 'environment', 'list', 'sorted', 'str', 'itertools')
                and n.id not in params]
     for okk, what in ((has_cmd, 'cmd_line.txt (cmdline.get_cmd_line_file)'), (has_ini, 'the machine files (glob *.ini)')):
         if not okk and opaque:
@@ -2272,20 +2520,44 @@ def _r4_analyse(fn: ast.AST, qn: str) -> _R4Result:
     if not (len(cp.args) == 2 and norm(cp.args[0]) == item and norm(cp.args[1]) == tmp[1]):
         res.bad.append((norm(cp), f'backup copy `{norm(cp)}` does not copy the loop item `{item}` into the temporary directory `{tmp[1]}`', cp))
     # (2) pairing copy -> original on restore
-    tup = app.args[0]
+    elem = app.args[0]
     movers = [c for c in walk_no_nested(rl) if isinstance(c, ast.Call) and call_name(c) in MOVERS]
-    if not (isinstance(tup, ast.Tuple) and len(tup.elts) == 2 and isinstance(rl.target, ast.Tuple) and len(rl.target.elts) == 2 and len(movers) == 1
-            and len(movers[0].args) == 2):
-        raise Undecided(f'{qn}: backup list is not a list of (copy, original) pairs moved back one by one')
-    pos_copy = 0 if any(x is cp for x in ast.walk(tup.elts[0])) else 1
-    if norm(tup.elts[1 - pos_copy]) != item:
-        res.bad.append((norm(app), f'the backup list records `{norm(tup.elts[1 - pos_copy])}` instead of the original path `{item}`', app))
-    names = [norm(e) for e in rl.target.elts]
+    # the backup list holds (copy, original) records: a tuple display, or a NamedTuple/dataclass record built positionally / by keyword
+    fields: T.List[T.Tuple[str, ast.AST]] = []
+    if isinstance(elem, ast.Tuple):
+        fields = [(str(i), e) for i, e in enumerate(elem.elts)]
+    elif isinstance(elem, ast.Call) and isinstance(elem.func, ast.Name) and elem.func.id in _RECORDS and not any(isinstance(a, ast.Starred) for a in elem.args):
+        names_ = _RECORDS[elem.func.id]
+        fields = list(zip(names_, elem.args)) + [(k.arg or '?', k.value) for k in elem.keywords]
+        if sorted(f for f, _ in fields) != sorted(names_):
+            fields = []
+    if len(fields) != 2 or len(movers) != 1 or len(movers[0].args) != 2:
+        raise Undecided(f'{qn}: backup list is not a list of (copy, original) records moved back one by one')
+    f_copy = next((f for f, e in fields if any(x is cp for x in ast.walk(e))), None)
+    f_orig = next((f for f, e in fields if f != f_copy), None)
+    if f_copy is None or f_orig is None:
+        raise Undecided(f'{qn}: backup record does not hold the copy')
+    orig_expr = dict(fields)[f_orig]
+    if norm(orig_expr) != item:
+        res.bad.append((norm(app), f'the backup list records `{norm(orig_expr)}` instead of the original path `{item}`', app))
+
+    def access(f: str) -> T.List[str]:
+        t = rl.target
+        if isinstance(t, ast.Tuple) and len(t.elts) == 2:
+            order = [x for x, _ in fields] if isinstance(elem, ast.Tuple) else _RECORDS[elem.func.id]  # type: ignore[union-attr]
+            return [norm(t.elts[order.index(f)])]
+        if isinstance(t, ast.Name):
+            idx = ([x for x, _ in fields] if isinstance(elem, ast.Tuple) else _RECORDS[elem.func.id]).index(f)  # type: ignore[union-attr]
+            return [f'{t.id}[{idx}]'] + ([] if isinstance(elem, ast.Tuple) else [f'{t.id}.{f}'])
+        raise Undecided(f'{qn}: restore loop target not understood')
     mv = movers[0]
-    if [norm(a) for a in mv.args] == [names[pos_copy], names[1 - pos_copy]]:
+    a0, a1 = norm(_resolve_in_loop(rl, mv.args[0])), norm(_resolve_in_loop(rl, mv.args[1]))
+    if a0 in access(f_copy) and a1 in access(f_orig):
         res.ok.append(f'{qn}: `{norm(mv)}` moves each backup copy back to its original path')
+    elif a0 in access(f_orig) + access(f_copy) and a1 in access(f_orig) + access(f_copy):
+        res.bad.append((norm(mv), f'`{norm(mv)}` does not move the backup copy (`{access(f_copy)[-1]}`) to the original path (`{access(f_orig)[-1]}`)', mv))
     else:
-        res.bad.append((norm(mv), f'`{norm(mv)}` does not move the backup copy (`{names[pos_copy]}`) to the original path (`{names[1 - pos_copy]}`)', mv))
+        raise Undecided(f'{qn}: `{norm(mv)}`: operands not understood')
     # (3) order: copy loop and read before every deletion
     read_nodes = [n for c in reads for n in cfg.node_containing(c)]
     cl_iter = [n for n in cfg.nodes if n.kind == 'iter' and n.ast is cloop]
@@ -2350,6 +2622,8 @@ def r4(ctx: RuleCtx) -> None:
     mod = _m(ctx, MSETUP)
     qn = 'MesonApp.__init__'
     fn = _inlined(mod, qn, ('add_ignore_files',))
+    _RECORDS.clear()
+    _RECORDS.update(_record_classes(mod))
     res = _r4_analyse(fn, qn)
     for what, mn in (('deletions', 1), ('read_cmd_line_file', 1), ('backup copies', 1), ('restore loops', 1)):
         ctx.floor(f'{qn}: {what}', res.counts.get(what, 0), mn)
@@ -2792,6 +3066,71 @@ def r5d(ctx: RuleCtx) -> None:
         ctx.violation(mod, qn, c, m, node)
 
 
+ENVIRONMENT = 'mesonbuild/environment.py'
+
+
+def _r6_analyse(fn: ast.AST, qn: str) -> T.Tuple[T.List[str], T.List[T.Tuple[str, str, ast.AST]], int]:
+    """Option writers that replay the initial option sources (`self.options`) must be unreachable when `self.first_invocation` is
+    false (K1): remove the CFG edges on which first_invocation is known true and see whether the writer is still reachable."""
+    oks: T.List[str] = []
+    bad: T.List[T.Tuple[str, str, ast.AST]] = []
+    cfg = CFG(fn)  # type: ignore[arg-type]
+    fl = Flow(fn)  # type: ignore[arg-type]
+    writers = cfg.nodes_with_call(lambda c: call_method(c) in ('set_option', 'set_user_option', 'set_value') and
+                                  any('attr:self.options' in fl.origins(a) for a in list(c.args) + [k.value for k in c.keywords]))
+    if not writers:
+        return oks, bad, 0
+    guard_pol: T.Dict[int, bool] = {}
+    for n in cfg.nodes:
+        if n.kind != 'test':
+            continue
+        t = n.ast.test  # type: ignore[union-attr]
+        if not any(isinstance(x, ast.Attribute) and x.attr == 'first_invocation' for x in ast.walk(t)):
+            continue
+        a, v = tables.canon(t, True)
+        if a != Atom('truth', ('self.first_invocation',)):
+            raise Undecided(f'{qn}: test on first_invocation not understood: {short(t)}')
+        guard_pol[n.id] = v          # value of first_invocation on the True edge
+    reach = cfg.reachable([cfg.entry], edge_ok=lambda a, b, lab: not (a.id in guard_pol and lab in (True, False) and (guard_pol[a.id] if lab else not guard_pol[a.id])))
+    for w in writers:
+        if w.id in reach:
+            bad.append((norm(w.ast), f'`{short(w.expr(), 70)}` writes option values taken from the initial sources (machine files / first command line, self.options) '  # type: ignore[arg-type]
+                        'and is reachable when this is not the first invocation: a reconfigure writes them over the values the user has set since', w.ast))  # type: ignore[arg-type]
+        else:
+            oks.append(f'{qn}: `{short(w.expr(), 60)}` (replays self.options) runs only on the first invocation')
+    return oks, bad, len(writers)
+
+
+_R6_EXAMPLE = '''
+def init_backend_options(self, backend_name):
+    self.coredata.init_backend_options(backend_name)
+    for k, v in self.options.items():
+        if self.coredata.optstore.is_backend_option(k):
+            self.coredata.optstore.set_option(k, v)
+'''
+
+
+def r6(ctx: RuleCtx) -> None:
+    _, exbad, _ = _r6_analyse(ast.parse(_R6_EXAMPLE).body[0], 'example')
+    if not exbad:
+        raise AnalysisError('C08.R6: built-in positive example (unguarded replay of self.options) was not flagged')
+    mod = _m(ctx, ENVIRONMENT)
+    total = 0
+    for name in sorted(mod.methods('Environment')):
+        qn = f'Environment.{name}'
+        fn = _inlined(mod, qn, ('set_option', 'set_user_option'))
+        oks, bad, n = _r6_analyse(fn, qn)
+        total += n
+        if bad and any(attr_chain(d.func if isinstance(d, ast.Call) else d) not in ('staticmethod', 'classmethod') for d in fn.decorator_list):
+            raise Undecided(f'{qn}: a decorator may provide the first-invocation guard; not understood')
+        for o in oks:
+            ctx.ok(o)
+        for c, m, node in bad:
+            ctx.violation(mod, qn, c, m, node)
+    if total == 0:
+        raise Undecided('Environment: no option writer replaying self.options found (written differently?)')
+
+
 RULES = [
     Rule('C08.R1', '-D/-U decision table of set_from_configure_command', r1),
     Rule('C08.R1b', 'cmd_line.txt: -D recorded as str(value), -U (value is None) erases', r1b),
@@ -2808,5 +3147,6 @@ RULES = [
     Rule('C08.R5a', 'mconf: recorded option file of the subproject is the one reloaded', r5a),
     Rule('C08.R5b', 'mconf: no recorded file - nothing foreign is loaded for the subproject', r5b),
     Rule('C08.R5c', 'interpreter: option file comes from the subproject directory', r5c),
+    Rule('C08.R6', 'environment: initial option sources are replayed on the first invocation only', r6),
     Rule('C08.R5d', 'interpreter: the store is updated for the subproject also when there is no option file', r5d),
 ]
